@@ -848,7 +848,7 @@ def explore_config(job):
     res = []
     deadline = time.time() + budget_s
     for schedule, out in sched.explore(lambda: cls(case), cls.files, cls.funcs, max_preempt=bound,
-                                       max_decisions=3000, deadline=deadline):
+                                       unit_names=("env",), max_decisions=3000, deadline=deadline):
         res.append(([list(p) for p in schedule], out.verdict))
     return res
 
@@ -900,6 +900,7 @@ class C19(Check):
         for badkind in (2, 1):
             rb = {"comp": "text", "symlink": 1, "contents": [[(1, 10), (2, 20)], []], "bad": [0, badkind],
                   "ids": [0, 1, 0], "edits": [0, 0], "cache_enabled": 1}
+            out.append((dict(rb, calls=[[[0, 1], [0, 1], [0, 1]]]), b2))
             out.append((dict(rb, calls=[[[0, 1], [0, 1], [0, 1]], [[1, 20], [0, 2]]]), b2))
         out.append(({"comp": "text", "symlink": 1, "contents": [[(1, 10)], [(1, 11)]], "bad": [0, 0], "ids": [0, 1, 0],
                      "edits": [0, 0], "cache_enabled": 1, "calls": [[[0, 1], [0, 1], [0, 1]], [[0, 1]]]}, b2))
@@ -995,7 +996,7 @@ class C19(Check):
     def gen(self, tier, rng):
         self.tier = tier
         cfgs = self.configs(tier)
-        budget = 40 if tier == "quick" else 300
+        budget = 30 if tier == "quick" else 300
         jobs = [(c, b, budget) for c, b in cfgs]
         order = sorted(range(len(jobs)), key=lambda i: -jobs[i][1])
         with multiprocessing.get_context("fork").Pool(min(14, common.NPROC)) as pool:
